@@ -1,5 +1,6 @@
 (* Line dispatch for C05 (and C17): case line -> result line.
      allocate <IR> <in> <out> <fmt>            -> ok <IR with identifiers> <temporaries>
+                                                  (err badformat when the format is outside the modelled language)
      interp <IR> <in> <out> <separate|aliased> <x>
                                                -> ok <value of out|undef> <value of in|undef> <state>
      history <IR> <inA>,<outA>,<fmtA> <inB>,<outB>,<fmtB> <ops>
@@ -87,13 +88,44 @@ Definition print_instr (i : instr) : list N :=
 
 Definition print_ir (p : iprogram) : list N := print_list_sep semi print_instr p.
 
-(* Format must be <prefix>%d with no other '%' *)
-Fixpoint parse_format (s : list N) : option (list N) :=
+(* The supported format language (model/Alloc.v): literal bytes, %% for a percent sign, and exactly
+   one directive % [0...] [width] verb with verb in d v x X o b; width without leading zero, at
+   most 64.  One pass over the bytes with a small state. *)
+Inductive pstate := PLit | PSpec (zero : bool) (width : option N).
+
+Definition verb_of (c : N) : option verb :=
+  if c =? 100 then Some VDec else if c =? 118 then Some VDec
+  else if c =? 120 then Some VHex else if c =? 88 then Some VHexUp
+  else if c =? 111 then Some VOct else if c =? 98 then Some VBin else None.
+
+Fixpoint parse_fmt (s : list N) (st : pstate) (pre : list N) (spec : option (verb * bool * nat)) (suf : list N)
+  : option tformat :=
   match s with
-  | [] => None
-  | [a; b] => if (a =? percent) && (b =? 100) then Some [] else None
-  | c :: r => if c =? percent then None else option_map (cons c) (parse_format r)
+  | [] => match st, spec with
+          | PLit, Some (v, z, w) => Some (mkFmt (rev pre) v z w (rev suf))
+          | _, _ => None
+          end
+  | c :: r =>
+      let lit (x : N) := match spec with
+                         | None => parse_fmt r PLit (x :: pre) spec suf
+                         | Some _ => parse_fmt r PLit pre spec (x :: suf)
+                         end in
+      match st with
+      | PLit => if c =? percent then parse_fmt r (PSpec false None) pre spec suf else lit c
+      | PSpec z w =>
+          if (c =? percent) && negb z && (match w with None => true | Some _ => false end) then lit percent
+          else if (c =? 48) && (match w with None => true | Some _ => false end) then parse_fmt r (PSpec true None) pre spec suf
+          else if (48 <=? c) && (c <=? 57) then
+            let w' := match w with None => c - 48 | Some x => x * 10 + (c - 48) end in
+            if w' <=? 64 then parse_fmt r (PSpec z (Some w')) pre spec suf else None
+          else match verb_of c, spec with
+               | Some v, None => parse_fmt r PLit pre (Some (v, z, match w with None => O | Some x => N.to_nat x end)) suf
+               | _, _ => None
+               end
+      end
   end.
+
+Definition parse_format (s : list N) : option tformat := parse_fmt s PLit [] None [].
 
 Definition parse_mode (s : list N) : option imode :=
   if str_eqb s $"separate" then Some Separate
@@ -110,7 +142,7 @@ Definition parse_cfg (s : list N) : option alloc_cfg :=
   match split comma s with
   | [i; o; fm] =>
       match parse_bytes i, parse_bytes o, option_map (fun b => parse_format b) (parse_bytes fm) with
-      | Some inp, Some outp, Some (Some pre) => Some (mkCfg inp outp pre)
+      | Some inp, Some outp, Some (Some ft) => Some (mkCfgF inp outp ft)
       | _, _, _ => None
       end
   | _ => None
@@ -241,9 +273,10 @@ Definition run (line : list N) : list N :=
         end
       else if str_eqb f $"allocate" then
         match parse_ir ir, parse_bytes i, parse_bytes o, option_map (fun b => parse_format b) (parse_bytes fm) with
-        | Some p, Some inp, Some outp, Some (Some pre) =>
+        | Some p, Some inp, Some outp, Some (Some ft) =>
             print_outcome (fun r => print_ir (fst r) ++ [sp] ++ print_list print_bytes (snd r))
-                          (allocate (mkCfg inp outp pre) p)
+                          (allocate (mkCfgF inp outp ft) p)
+        | Some _, Some _, Some _, Some None => r_err $"badformat"
         | _, _, _, _ => r_badcase
         end
       else r_badcase
